@@ -67,6 +67,14 @@ CLAIMED = {
             "role and user attributes) restricted by the quantifier's expressibility clauses X1-X4 (each counted), "
             "written as PROV-XML with force_types False and True, read back and compared strictly.",
             TECH + "; exhaustive shape sweeps", NOTE),
+    "C10": ("The enumerations of C01 and C02 (history exploration + shape sweep, all writer options) are re-run with "
+            "independent readers as the oracle: a PROV-JSON reader on the json module and a PROV-XML reader on "
+            "ElementTree.iterparse with its own namespace-scope stack, both written from the specifications' structural "
+            "rules and importing nothing from prov; the structural rules must hold on the emitted text and the "
+            "recovered document must equal the strict observation of the original, so a symmetric writer/reader "
+            "mistake or a renamed key is caught.", TECH + "; independent specification-derived readers as oracle",
+            NOTE + "; the independent readers (validated by a differential run over the 398 JSON + 44 XML corpus files: "
+            "agreement except the J1-excluded 1/True attribute sets) are trusted"),
 }
 
 NA = {}
